@@ -159,13 +159,13 @@ def dataMatches (cfg : Cfg) : Item → Bool
 inductive Scan
   | more (skipped : List Item)                       -- queue exhausted: the consumer blocks holding `skipped`
   | hit (x : Item) (rest skipped : List Item)        -- found `x`; `rest` is what is still queued behind it
-  | err (cw : Nat) (rest : List Item)                -- a bare control word came first
+  | err (cw : Nat) (rest skipped : List Item)        -- a bare control word came first
 deriving DecidableEq, Repr
 
 /-- the `while True` loop of both consumers over what is queued, `m` being the acceptance test -/
 def scan (m : Item → Bool) (sk : List Item) : List Item → Scan
   | [] => .more sk
-  | .word cw :: q => .err cw q
+  | .word cw :: q => .err cw q sk
   | .frame cw s t d :: q =>
     if m (.frame cw s t d) then .hit (.frame cw s t d) q sk else scan m (sk ++ [.frame cw s t d]) q
 
@@ -212,13 +212,16 @@ def clientRun (cfg : Cfg) (s : Sys) : Sys :=
   | .ackWait prev sk a c =>
     match scan (ackMatches cfg prev) sk s.queue with
     | .more sk' => { s with queue := [], client := .ackWait prev sk' a c }
-    | .hit _ rest sk' => { s with queue := rest ++ sk' }.finish (.wrote prev.length)
-    | .err cw rest => { s with queue := rest, closed := true }.finish (.errWord cw)
+    -- skipped frames go back *in front of* what arrived after the ack (arrival order is kept)
+    | .hit _ rest sk' => { s with queue := sk' ++ rest }.finish (.wrote prev.length)
+    -- (the `finally` of `_read_ack` requeues on every exit, also after `_unpack_frame` closed the connection)
+    | .err cw rest sk' => { s with queue := sk' ++ rest, closed := true }.finish (.errWord cw)
   | .reading sk c =>
     match scan (dataMatches cfg) sk s.queue with
     | .more sk' => { s with queue := [], client := .reading sk' c }
     | .hit x rest sk' => { s with queue := rest ++ sk' }.finish (.data x.payload)
-    | .err cw rest => { s with queue := rest, closed := true }.finish (.errWord cw)
+    -- `read_diag_request` drops what it has skipped when it ends by an exception
+    | .err cw rest _ => { s with queue := rest, closed := true }.finish (.errWord cw)
 
 /-- the reader task handles one parsed frame -/
 def deliver (cfg : Cfg) (s : Sys) (w : Wire) : Sys :=
@@ -256,17 +259,19 @@ def settle (cfg : Cfg) (yields : Wire → Bool) (s : Sys) : Sys :=
       settle cfg yields s1
 termination_by s.buf.length
 
-/-- fire the consumer's timers that are due up to `target` (the caller's timer wins a tie: it was armed first) -/
+/-- fire the consumer's timers that are due up to `target` (the caller's timer wins a tie: it was armed first).
+    A cancelled ack wait puts the frames it has skipped back in front of the queue (`finally` in `_read_ack`);
+    a cancelled `read_diag_request` drops them. -/
 def fire (s : Sys) (target : Nat) : Sys :=
   match s.client with
   | .idle => s
-  | .ackWait _ _ a c =>
+  | .ackWait _ sk a c =>
     match c with
     | some ct =>
-      if ct ≤ a ∧ ct ≤ target then { s with now := ct }.finish .timeout
-      else if a ≤ target then { s with now := a, closed := true }.finish .noAck
+      if ct ≤ a ∧ ct ≤ target then { s with now := ct, queue := sk ++ s.queue }.finish .timeout
+      else if a ≤ target then { s with now := a, queue := sk ++ s.queue, closed := true }.finish .noAck
       else s
-    | none => if a ≤ target then { s with now := a, closed := true }.finish .noAck else s
+    | none => if a ≤ target then { s with now := a, queue := sk ++ s.queue, closed := true }.finish .noAck else s
   | .reading _ c =>
     match c with
     | some ct => if ct ≤ target then { s with now := ct }.finish .timeout else s
